@@ -93,6 +93,10 @@ def run(tier, seed):
     parked = [s for f, s in fam if f == "parked"]
     sub = scheds if tier != "quick" else scheds[: len(KEYS) ** 2 + len(KEYS) + 1] + scheds[-600 - len(parked):]
     corecheck.validate(chk, cfg2, gen.STD_TREE, sub, label="hist:noanon")
+    # the order of the accounts in the table means nothing: anonymous first, and in the middle
+    for order, tag in (([2, 0, 1], "anon-first"), ([0, 2, 1], "anon-middle")):
+        cfg3 = gen.std_cfg(ns=1, users=[gen.STD_USERS[i] for i in order])
+        corecheck.validate(chk, cfg3, gen.STD_TREE, scheds[: len(KEYS) + 1] + scheds[len(KEYS) + 1: len(KEYS) ** 2: 7] + parked[::3], label="hist:" + tag)
     tw = twin_sessions()
     corecheck.validate(chk, gen.std_cfg(ns=2, users=[u for u in gen.STD_USERS if u["id"] != "anon"]), gen.STD_TREE, tw if tier != "quick" else tw[::2], label="twins")
     chk.cov["rule"] = ("all command histories of length <= 2 and seeded ones of length 3..6 over %d command kinds (every login "
